@@ -19,6 +19,8 @@ entries in *some* enumeration order; every function below that ranges over a map
 enumeration as its argument, so "independent of map iteration order" is a theorem about
 permutations of the argument.  `time.Time` is a `Nat` (creation timestamps have second resolution),
 `strings.Compare` is `strCmp` (Lean compares code points, Go compares UTF-8 bytes: the same order).
+The models are those of the tree as repaired by the C17 fix commits; the behaviour of the pinned tree
+before the repairs is kept in Unfixed.lean (historical record, not an obligation).
 -/
 namespace IstioModel.C17
 
@@ -58,7 +60,8 @@ def cmpOfLess {α : Type} (less : α → α → Bool) (a b : α) : Ordering :=
 
 /-- The fields of `model.Service` the comparator reads: `CreationTime`, `Attributes.Name`,
     `Attributes.Namespace`, and - since the repair of finding C17-2 - `Attributes.K8sAttributes.ObjectName`,
-    `Hostname`, `DefaultAddress`. `id` is the harness' object id. For a service that comes from a
+    `Hostname`, `DefaultAddress`; `kube` = `Attributes.ServiceRegistry == Kubernetes` (read by the service
+    index, not by the comparator). `id` is the harness' object id. For a service that comes from a
     ServiceEntry `name` is the hostname, `objName` the ServiceEntry's name, and there is one service
     per (host, address) pair of the entry. -/
 structure Svc where
@@ -69,21 +72,16 @@ structure Svc where
   objName : String
   host    : String
   addr    : String
+  kube    : Bool := false
   deriving DecidableEq, Repr, Inhabited
 
-/-- The comparator of the pinned tree: creation time, name, namespace only. -/
-def svcCmpUnfixed (i j : Svc) : Ordering :=
-  andThen (natCmp i.time j.time) (andThen (strCmp i.name j.name) (strCmp i.ns j.ns))
-
-/-- The comparator as repaired: ties fall back on object name, hostname and address. -/
+/-- The comparator (as repaired by C17-2: ties fall back on object name, hostname and address). -/
 def svcCmp (i j : Svc) : Ordering :=
   andThen (natCmp i.time j.time) (andThen (strCmp i.name j.name) (andThen (strCmp i.ns j.ns)
     (andThen (strCmp i.objName j.objName) (andThen (strCmp i.host j.host) (strCmp i.addr j.addr)))))
 
 /-- `SortServicesByCreationTime` (`slices.SortStableFunc`). -/
 def sortServicesByCreationTime (l : List Svc) : List Svc := isort (ltOf svcCmp) l
-
-def sortServicesUnfixed (l : List Svc) : List Svc := isort (ltOf svcCmpUnfixed) l
 
 /-! ### sortConfigByCreationTime, sortConfigBySelectorAndCreationTime -/
 
@@ -95,6 +93,7 @@ structure Cfg where
   name : String
   ns   : String
   sel  : Bool
+  kind : String := ""   -- `GroupVersionKind`; not read by the comparators
   deriving DecidableEq, Repr, Inhabited
 
 /-- `configCompareByCreationTime`. -/
@@ -233,9 +232,9 @@ def pseudoHeaders (i : MatchIn) : List Mt :=
   (if i.authority then [{ name := ":authority", invert := false, m := 0 }] else []) ++
   (if i.scheme then [{ name := ":scheme", invert := false, m := 0 }] else [])
 
-/-- `TranslateRouteMatch` of the pinned tree: only `out.Headers` is sorted; the dynamic-metadata and
-    query-parameter matchers stay in map iteration order (finding C17-1). -/
-def translateMatchUnfixed (i : MatchIn) : MatchOut :=
+/-- The body of `TranslateRouteMatch` on given visiting orders of the three maps: header matchers
+    sorted by name (stable), dynamic-metadata and query-parameter matchers in visiting order. -/
+def assembleMatch (i : MatchIn) : MatchOut :=
   { headers := isort mtLess (rawHeaders i) ++ pseudoHeaders i
     dynMeta := rawMeta i
     query   := i.query.map (hdrOf false) }
@@ -245,10 +244,10 @@ def entryLess (a b : String × Nat) : Bool := decide (a.1 < b.1)
 /-- `sortedKeys(m)` followed by the lookup: the entries of a match map in key order. -/
 def byKey (enum : List (String × Nat)) : List (String × Nat) := isort entryLess enum
 
-/-- `TranslateRouteMatch` as repaired: the three maps are walked in key order and the header sort is
-    stable. -/
+/-- `TranslateRouteMatch` (as repaired by C17-1): the three maps are walked in key order and the header
+    sort is stable. -/
 def translateMatch (i : MatchIn) : MatchOut :=
-  translateMatchUnfixed { i with headers := byKey i.headers, without := byKey i.without, query := byKey i.query }
+  assembleMatch { i with headers := byKey i.headers, without := byKey i.without, query := byKey i.query }
 
 /-! ### pickBestVisibleNamespace -/
 
@@ -276,19 +275,9 @@ def pickBest (enum : List NsSvc) : String :=
   | some s => s.ns
   | none => ""
 
-/-- `pickBestVisibleNamespace` of the pinned tree: the first Kubernetes service met wins outright,
-    otherwise a strictly older service replaces the current best (finding C17-5). -/
-def pickBestUnfixedGo : Option NsSvc → List NsSvc → String
-  | best, [] => match best with
-    | some b => b.ns
-    | none => ""
-  | best, s :: rest =>
-    if s.kube then s.ns
-    else match best with
-      | none => pickBestUnfixedGo (some s) rest
-      | some b => if s.time < b.time then pickBestUnfixedGo (some s) rest else pickBestUnfixedGo (some b) rest
-
-def pickBestUnfixed (enum : List NsSvc) : String := pickBestUnfixedGo none enum
+/-- `pickFirstVisibleNamespace` (PILOT_SIDECAR_PICK_BEST_SERVICE_NAMESPACE=false), on an enumeration of
+    the visible namespaces of `byNamespace`: `sort.Strings`, first. -/
+def pickFirst (enum : List String) : String := (sortedList enum).headD ""
 
 /-! ### endpointSliceCache.get -/
 
@@ -305,13 +294,13 @@ def dedupKeys : List (String × Nat) → List String → List (String × Nat)
   | [], _ => []
   | e :: es, seen => if seen.contains e.1 then dedupKeys es seen else e :: dedupKeys es (e.1 :: seen)
 
-/-- `endpointSliceCache.get` of the pinned tree: slices in map iteration order (finding C17-3). -/
-def sliceEndpointsUnfixed (enum : List Slice) : List (String × Nat) := dedupKeys (enum.flatMap (·.eps)) []
+/-- The endpoints of the slices visited in the given order, first endpoint of every key kept. -/
+def concatSlices (visit : List Slice) : List (String × Nat) := dedupKeys (visit.flatMap (·.eps)) []
 
-/-- As repaired: slices in name order. -/
-def sliceEndpoints (enum : List Slice) : List (String × Nat) := sliceEndpointsUnfixed (isort sliceLess enum)
+/-- `endpointSliceCache.get` (as repaired by C17-3): slices in name order. -/
+def sliceEndpoints (enum : List Slice) : List (String × Nat) := concatSlices (isort sliceLess enum)
 
-/-! ### sorted walks over map keys introduced by the repairs -/
+/-! ### sorted walks over map keys introduced by the repairs C17-7 (inbound cluster ports) and C17-8 (listener keys) -/
 
 /-- `listenerKey{bind, port}` ordering of `finalizeOutboundListeners`. -/
 structure LKey where
